@@ -637,7 +637,7 @@ fn dispatch_serde(ty: &str, operands: &[Vec<&str>]) -> Vec<String> {
 fn cji(j: usize, i: usize) -> f64 {
     (1 + (3 * j + 5 * i) % 7) as f64
 }
-/// f_j(x) = e_j + sum_i (x_i * x_i * x_{(i+1) mod n}) * c(j,i) + x_{j mod n} * d_j; f_j = e_j (a constant) for odd j >= 3
+/// f_j(x) = e_j + sum_i (x_i * x_i * x_{(i+1) mod n}) * c(j,i) + [x_0 / (x_1^2 + 3) if n >= 2] + x_{j mod n} * d_j; f_j = e_j (a constant) for odd j >= 3
 fn poly<D: DualNum<f64>>(x: &[D], j: usize) -> D {
     let n = x.len();
     // the odd outputs from the fourth on are constants: they carry no derivative information at all (eps absent in the vector types)
@@ -648,18 +648,25 @@ fn poly<D: DualNum<f64>>(x: &[D], j: usize) -> D {
     for i in 0..n {
         acc = acc + (x[i].clone() * &x[i] * &x[(i + 1) % n]) * cji(j, i);
     }
+    if n >= 2 {
+        // a quotient of two expressions with non-parallel gradients
+        acc = acc + x[0].clone() / (x[1].clone() * &x[1] + 3.0);
+    }
     if n > 0 {
         acc = acc + x[j % n].clone() * (2.0 + j as f64);
     }
     acc
 }
-/// h(x, y) = 0.25 + sum_i sum_k (x_i * y_k * y_k) * c(i,k) + sum_i x_i * (2 + i)
+/// h(x, y) = 0.25 + sum_i sum_k (x_i * y_k * y_k) * c(i,k) + x_0 / (y_0^2 + 3) + sum_i x_i * (2 + i)
 fn poly2<D: DualNum<f64>>(x: &[D], y: &[D]) -> D {
     let mut acc = D::from(0.25);
     for i in 0..x.len() {
         for k in 0..y.len() {
             acc = acc + (x[i].clone() * &y[k] * &y[k]) * cji(i, k);
         }
+    }
+    if !x.is_empty() && !y.is_empty() {
+        acc = acc + x[0].clone() / (y[0].clone() * &y[0] + 3.0);
     }
     for i in 0..x.len() {
         acc = acc + x[i].clone() * (2.0 + i as f64);
